@@ -239,6 +239,30 @@ func freshRule(r *core.Run, ef *errFlow, rule string) {
 		}
 	}
 	r.Check(calls == 1, rule, "tryParsePackage calls LookupPackage", tp.Pos(), "one LookupPackage call per attempt", fmt.Sprintf("%d LookupPackage calls in tryParsePackage", calls))
+	// ... and the package whose ReadFrom is attempted is that very object, on every path (not one kept from the attempt
+	// that failed: the queue is rewound to the token, an object that remembers how far it got parses the bytes of
+	// the first field as those of a later one)
+	pkgIface := p.Named("tds", "Package")
+	for _, c := range core.Calls(tp) {
+		cc := c.Common()
+		if !cc.IsInvoke() || cc.Method.Name() != "ReadFrom" {
+			continue
+		}
+		if n, ok := cc.Value.Type().(*types.Named); !ok || n.Obj() != pkgIface.Obj() {
+			continue
+		}
+		why := ""
+		for _, leaf := range phiLeaves(cc.Value, nil) {
+			ex, ok := core.Strip(leaf).(*ssa.Extract)
+			if ok {
+				if lc, isC := ex.Tuple.(*ssa.Call); isC && core.StaticCallee(lc) == lp {
+					continue
+				}
+			}
+			why = "the package a parse attempt fills can be " + core.Expr(leaf) + " rather than the object LookupPackage created for this attempt: state of the attempt that ran out of bytes survives into the retry"
+		}
+		r.Check(why == "", rule, "tryParsePackage: the attempt fills the package created for it", c.Pos(), "pkg := LookupPackage(token) of this invocation", why)
+	}
 
 	// no stores to package-level variables inside W
 	for _, fn := range ef.SortedW() {
